@@ -387,6 +387,45 @@ def r_jigg(repo, rep, R='R15.2'):
     return span_attrs
 
 
+def r_span_categories(repo, rep, R='R15.2'):
+    """every node the Jigg reader builds takes its category from its own <span>: what the writer puts on the <token>s is
+    written once per sentence (from the first tree), the spans are written per tree -- a leaf category read from anywhere
+    but the span is the first tree's supertag in every other tree of an n-best list"""
+    rm = repo.module(RD)
+    rj = rm.get('read_jigg_xml')
+    fns = [n for n in scope_nodes(rm, rj) if isinstance(n, ast.FunctionDef)]
+    recs = [f for f in fns if any(isinstance(c, ast.Call) and self_call_src(c, f) for c in ast.walk(f))]
+    judged = 0
+    bad = []
+    for rec in recs:
+        ps = own_params(rec)
+        for st, o in SymExec(rec).run():
+            t = st.ret
+            if o != 'return' or t is None or t[0] != 'call' or t[1][0] != 'attr' or t[1][1] != N('Tree') or t[1][2] not in ('make_terminal', 'make_unary', 'make_binary'):
+                continue
+            args = dict(zip(('word', 'cat') if t[1][2] == 'make_terminal' else ('cat',), t[2]))
+            args.update({k: v for k, v in t[3] if k is not None})
+            cat = args.get('cat')
+            if cat is None:
+                continue
+            judged += 1
+            names = {x[1] for x in subterms(cat) if x[0] == 'name'} - {'Category'}
+            from_span = any(x[0] == 'sub' and x[2] == C('category') for x in subterms(cat)) or \
+                any(x[0] == 'call' and x[1][0] == 'attr' and x[1][2] == 'get' and x[2] and x[2][0] == C('category') for x in subterms(cat))
+            if not from_span or not names <= set(ps):
+                bad.append((rec.lineno, '%s: %s(.., cat=%s)' % (rec.name, t[1][2], show(cat)[:80])))
+    if not judged:
+        raise AnalysisError('%s: the node builder of read_jigg_xml was not recognised' % RD)
+    rep.check(not bad, R, '%s:%s read_jigg_xml' % (RD, bad[0][0] if bad else rj.lineno), 'jigg:category-from-span',
+              'every node read back takes its category from its own span (%d builder paths)' % judged,
+              'a category is not read from the node\'s own span: %s -- the <token>s are written once per sentence from the first tree, '
+              'the other trees of an n-best list come back with its supertags' % '; '.join(x for _, x in bad[:2]))
+
+
+def self_call_src(c, f):
+    return (isinstance(c.func, ast.Name) and c.func.id == f.name) or (isinstance(c.func, ast.Attribute) and c.func.attr == f.name and src(c.func.value) in ('self', 'cls'))
+
+
 def _jigg_roles(jm):
     """-> (ccg_fn, trav): the function that creates the <ccg> element of one tree and the recursive span writer it uses,
     wherever they live (method + closure, method + method, module function + closure)"""
@@ -1106,6 +1145,7 @@ def check(repo, rep, tier):
     from .c12 import r_label_recovery
     r_label_recovery(repo, rep, 'R15.1')
     r_jigg(repo, rep)
+    r_span_categories(repo, rep)
     r_ids(repo, rep)
     r_root_flag(repo, rep)
     n = r_ccg2lambda_vocab(repo, rep)
